@@ -298,7 +298,7 @@ def stream_case(draw):
 def shards(tier):
     n = 16
     out = []
-    per = 400 if tier == 'quick' else 1200
+    per = 1000 if tier == 'quick' else 3000
     for i in range(n):
         out.append({'name': 'streams-%d' % i, 'kind': 'hyp', 'examples': per, 'hypothesis': True})
     # exhaustive 1-cuts (and 2-cuts in the thorough tier) of fixed representative streams
